@@ -37,6 +37,35 @@ CLAIMED = {
    note="Trusted: Lean kernel; model F64 = IEEE-754 binary64 (validated by the streams, not proved against hardware); tolerant equality is the code's documented behaviour and is judged against exact arithmetic outside a 2^-40 band around the 2^-52 threshold.",
    design="DESIGN.md §7 C10",
    technique="Lean 4 theorems over a hand-written model (exact soft-float) + model/implementation correspondence + algebraic oracles on the implementation"),
+ "C04": dict(
+   text="Machine-checked theorems (Lean 4): the binding-power table and every call-site power are re-extracted from lexer.rs/parser.rs on each "
+        "run and proved equal to the documented ones; the parse of every sentence is `ast` of the unique `Legal` tree spelling its tokens "
+        "(T1 + T2: unambiguity), every operand binds tighter than its operator (left associativity), a projection's right-hand side stops "
+        "at a token binding below 10, and adding the implied parentheses yields a legal tree with the same `ast` that parses to itself. "
+        "The model is tied to the code by the `parse` stream comparing full tree shape on operator-dense sentences (all ordered pairs/triples "
+        "of infix operators around operands with prefix/postfix chains), plus implementation-only oracles: parenthesised and respelled "
+        "text parse to the same tree and give the same search result. The one deviation of the code from the stated rule (F16) is a known finding.",
+   note="Trusted: Lean kernel; translate.py's regex extraction; the parser model's correspondence as sampled; `Legal` mirrors the code at F16 (dotted multi-select list ends the right-hand side), which is reported as a known finding rather than proved conformant.",
+   design="DESIGN.md §7 C04, Appendix A",
+   technique="Lean 4 theorems (unambiguity, paren-invariance, regenerated precedence tables) + correspondence + implementation-only parenthesisation oracle"),
+ "C13": dict(
+   text="Machine-checked theorem (Lean 4): for every history of compile/clone/drop/search operations over any handles, expressions and documents "
+        "(incl. failing ones) the outputs equal those of a stateless specification that recompiles the handle's source text for every search "
+        "(by induction over the history with a handle-table invariant). Because an immutable model is pure by construction, the decisive part "
+        "is the `history` correspondence stream: the same histories run against the real code with shared Rc documents and the shared default "
+        "runtime, each search compared in-process with a fresh compile+search, documents re-encoded afterwards.",
+   note="Trusted: Lean kernel; the history model; purity of the real code is observed on sampled histories, not proved about Rust.",
+   design="DESIGN.md §7 C13",
+   technique="Lean 4 refinement theorem (history vs stateless spec) + history correspondence stream with in-process freshness oracle"),
+ "C15": dict(
+   text="Machine-checked theorems (Lean 4): after any sequence of register/deregister/register-builtins operations on a fresh runtime, lookup "
+        "returns exactly the most recent registration of the name still in force (induction over the history); a call evaluates its arguments "
+        "in order against the current node, passes expression references unevaluated, consults the registry, fails with unknown-function at "
+        "the call's offset otherwise; a custom function with a signature runs iff validation succeeds and receives the evaluated arguments. "
+        "Tied to the code by the `registry` stream (random histories, custom functions that report {id, args}) and a checker-side last-live oracle.",
+   note="Trusted: Lean kernel; HashMap modelled as a duplicate-free association list; correspondence sampled.",
+   design="DESIGN.md §7 C15",
+   technique="Lean 4 theorem (registry history refines last-live lookup) + registry correspondence stream"),
 }
 
 NOT_YET = "check not built yet in this session (work in progress; see DESIGN.md §10 for the order of work)"
